@@ -7,7 +7,7 @@ entry points (X) and the proc-macro entry table (S).
 Not decided: panics inside syn/quote on inputs darling forwards unchecked."""
 import re
 
-from vlib import mir, scan
+from vlib import resalg, mir, scan
 from . import common
 
 ENTRY = {
@@ -119,21 +119,18 @@ def run(ctx):
         f = ctx.fn(entry)
         if not f:
             continue
-        tok = ctx.find_calls(f, r"ToTokens>::into_token_stream$")
-        wr = ctx.find_calls(f, r"^darling_core::error::Error::write_errors$")
-        new = ctx.find_calls(f, "^" + re.escape(opts) + "::new$")
-        ctx.ob("C06.X.entry-shape", f.key, "new / into_token_stream / write_errors", (len(new), len(tok), len(wr)) == (1, 1, 1), str((len(new), len(tok), len(wr))))
-        if len(new) == 1:
-            ctx.ob("C06.X.entry-input", f.key, "new(input)", ctx.expr(f, new[0][1]["args"][0]) == "a1", ctx.expr(f, new[0][1]["args"][0]))
-        for blk, t in tok:
-            ctx.requires("C06.X.impl-iff-ok", f, blk, "into_token_stream", [r"is_ok\(.*::new\(a1\)\)=True"])
-            ctx.ob("C06.X.impl-value", f.key, "into_token_stream(val)", bool(re.search(r"as Ok\)\.0$", ctx.expr(f, t["args"][0]))), ctx.expr(f, t["args"][0]))
-            ci = mir.callee_info(t)
-            ctx.ob("C06.X.impl-type", f.key, "into_token_stream on the options type", (ci.get("self_ty") or "") == opts or opts in (ci.get("resolved_with_args") or ""), str(ci.get("resolved_with_args")))
-        for blk, t in wr:
-            ctx.requires("C06.X.errors-iff-err", f, blk, "write_errors", [r"is_ok\(.*::new\(a1\)\)=False"])
-        rets = ctx.ret_exprs(f)
-        ctx.ob("C06.X.never-nothing", f.key, "return", len(rets) == 2 and all(("into_token_stream" in e or "write_errors" in e) for _, e in rets), "returns %s" % [e[:60] for _, e in rets])
+        # the entry's value as a case table (a shared helper or macro between the entry and the
+        # two exits is looked through): Ok(options) => the impl's tokens, Err(e) => e.write_errors()
+        src = "%s::new(a1)" % opts
+        got = sorted(resalg.cases(ctx, f))
+        ok_rows = [(c, v) for c, v in got if c == ["is_ok(%s)=True" % src]]
+        err_rows = [(c, v) for c, v in got if c == ["is_ok(%s)=False" % src]]
+        ctx.ob("C06.X.entry-shape", f.key, "new(input) decides between two exits", len(got) == 2 and len(ok_rows) == 1 and len(err_rows) == 1, "cases %s" % [(c, v[:100]) for c, v in got])
+        for c, v in ok_rows:
+            ctx.ob("C06.X.impl-iff-ok", f.key, "into_token_stream", re.match(r"^(<.* as )?quote::to_tokens::ToTokens(>)?::into_token_stream\(\(%s as Ok\)\.0\)$" % re.escape(src), v) is not None, v[:200])
+        for c, v in err_rows:
+            ctx.ob("C06.X.errors-iff-err", f.key, "write_errors", v == "darling_core::error::Error::write_errors((%s as Err).0)" % src, v[:200])
+        ctx.ob("C06.X.never-nothing", f.key, "return", bool(got) and all(("into_token_stream(" in v or "write_errors(" in v) for c, v in got), "returns %s" % [v[:60] for c, v in got])
     # each options type's ToTokens builds the matching Impl and forwards to its to_tokens
     for entry, opts in ENTRY.items():
         f = ctx.fn("<%s as quote::to_tokens::ToTokens>::to_tokens" % opts)
